@@ -3,6 +3,13 @@ import subprocess, resource, os
 from common import *
 
 RET = {'ok': 1, 'data': 9, 'format': 7, 'options': 8, 'trunc': 10, 'fuel': -1}
+def same_verdict(st, ret):
+    """specification status vs lzma_ret.  DATA_ERROR and 'needs more input' are one rejection class:
+    for invalid input the point at which the real decoders notice the error (before or after running
+    out of input) legitimately depends on internal buffering."""
+    if st in ('data', 'trunc'): return ret in (9, 10)
+    return RET[st] == ret
+
 LZMA_CONCATENATED = 0x08
 LZMA_TELL_ANY_CHECK = 0x04
 
